@@ -55,7 +55,21 @@ def passes(cfg, lang, data, wd, strict):
                 while j < min(len(l1), len(l2)) and l1[j] == l2[j]:
                     j += 1
                 rest = l1[j:].lstrip(b" \t")
-                cls = "space-before-comment" if rest.startswith((b"/*", b"//")) else "alignment" if re.match(rb"^([-+*/%&|^]?=(?!=)|\w+\s*[;,=)]|\*+\w)", rest) else "spacing"
+                rest2 = l2[j:].lstrip(b" \t")
+                gap1, gap2 = len(l1[j:]) - len(rest), len(l2[j:]) - len(rest2)
+                before = l1[:j].rstrip(b" \t")
+                if rest.startswith((b"/*", b"//")):
+                    # the cause recorded as a finding: pass 1 glues the comment to the code, pass 2 inserts the one blank
+                    glued = j > 0 and l1[j - 1:j] not in (b" ", b"\t") and gap1 == 0 and gap2 == 1
+                    cls = "space-before-comment:zero-gap" if glued else "space-before-comment:column"
+                elif re.match(rb"^[-+*/%&|^]?=(?!=)", rest):
+                    cls = "alignment:assign"
+                elif re.match(rb"^(\w+\s*[;,=)]|\*+\w)", rest):
+                    cls = "alignment:other"
+                elif before.endswith((b"*", b"&")) or rest.startswith((b"*", b"&")):
+                    cls = "spacing:star"
+                else:
+                    cls = "spacing:other"
             return "fixpoint:" + cls, "pass 2 differs from pass 1 at byte %d (line %d): %r vs %r" % (k, line, o1[max(0, k - 20):k + 20], o2[max(0, k - 20):k + 20])
         # --check on the formatted text
         f = os.path.join(wd, "chk.src")
@@ -69,6 +83,31 @@ def passes(cfg, lang, data, wd, strict):
     except subprocess.TimeoutExpired:
         return "timeout", "a pass did not terminate in 40 s"
     return None, None
+
+
+def commented(r, text):
+    """re-indent a generated program by brace depth (tabs, 8 or 4 blanks per level - the profiles use other widths, so every
+    line moves) and hang trailing comments on closing braces (gap 1-2: the 'brace comment' class of the aligner) and on
+    statements (varied gaps): the layout of trailing comments is where the input's columns are most easily consulted"""
+    unit = r.choice(["\t", " " * 8, " " * 4, "  "])
+    out, depth, cont = [], 0, False
+    for ln in text.split("\n"):
+        st = ln.strip()
+        if cont or st.startswith("#") or not st:
+            cont = ln.endswith("\\")
+            out.append(ln)
+            continue
+        cont = ln.endswith("\\")
+        d = max(0, depth - (1 if st.startswith("}") else 0) - (1 if st.startswith(("case ", "default:")) else 0))
+        depth += st.count("{") - st.count("}")
+        line = unit * d + st
+        if not cont and "/*" not in st and "//" not in st:
+            if st in ("}", "};") and r.random() < 0.6:
+                line += " " * r.randint(1, 2) + r.choice(["/* end */", "/* end of block */", "// end"])
+            elif st.endswith((";", "{")) and r.random() < 0.3:
+                line += r.choice([" ", "  ", "\t", " " * 10, "   "]) + r.choice(["/* t */", "// t", "/* a longer remark */"])
+        out.append(line)
+    return "\n".join(out)
 
 
 def run(rep, build, tier, seed):
@@ -90,7 +129,10 @@ def run(rep, build, tier, seed):
             lines = progs.program(r, nfunc=r.randint(1, 3), max_depth=4, size=20, rich=True)
             src = progs.layout(r, lines, indent="random", tabs=True, comments=True, blank_max=2).encode("latin1")
         else:
-            src = cprogs.program(r, nfunc=r.randint(1, 3), size=r.choice([8, 20]), cpp=cpp).encode()
+            src = cprogs.program(r, nfunc=r.randint(1, 3), size=r.choice([8, 20]), cpp=cpp)
+            if i % 3 == 1:
+                src = commented(r, src)
+            src = src.encode()
         for p in profiles:
             jobs.append(("gen:%d|%s" % (i, p), os.path.join(PROFILES, p), None, "CPP" if cpp else "C", src, True, "fixpoint|%s|gen" % p[:-4]))
     seen, files = set(), []
